@@ -7,7 +7,7 @@ Confirms in a scratch worktree: demo passes on the clean tree, fails with the pa
 import json, os, shutil, subprocess, sys, tempfile
 
 pid, mi, sid, needs = sys.argv[1:5]
-src = f"/tmp/seed/out-{pid}"
+src = os.environ.get("SEED_SRC", "/tmp/seed") + f"/out-{pid}"
 dst = f"/verif/seeded/{sid}"
 d = tempfile.mkdtemp(dir="/tmp/mut" if os.path.isdir("/tmp/mut") else None)
 wt = d + "/r"
